@@ -42,6 +42,8 @@ def shards(tier, seed):
     sh += mk('Algebra(2): unary operators x all canonical subsets x all partitions', main, 'un', ('S', None), ('B',), 4)
     sh += mk('Algebra(2): binary operators x subsets <=2 blades x 4 right operands x all partitions (k<=4)', main, 'bin', ('S', 2), right4, 11)
     sh += mk('string coefficients and ordered tuples (gp, sw, add, div)', main, 'bin', ('T', 2), ('list', [[2, 1], [3]]), 4, ops=['gp', 'sw', 'add', 'div'], strings=True)
+    sh.append(dict(stratum='call history: 18 symbolic multivectors of one key pattern called one after the other (two orders)', cfg=main, kind='callhist'))
+    sh.append(dict(stratum='call history: 18 symbolic multivectors of one key pattern called one after the other (two orders)', cfg=spaces.cfg_pqr(2, 0, 1), kind='callhist'))
     others = [spaces.cfg_pqr(1, 0, 1), spaces.cfg_pqr(1, 1, 0)] if tier == 'quick' else [spaces.cfg_sig(s) for s in spaces.sig(2)[1:]]
     for c in others:
         sh += mk('other d=2 configurations: unary all subsets, binary on a 5x3 menu', c, 'un', ('S', None), ('B',), 2)
@@ -65,7 +67,43 @@ def partitions(k):
     return list(dict.fromkeys(out))
 
 
+def run_call_history(shard):
+    """Many symbolic multivectors of one key pattern are *called* one after the other in one process: whatever is memoised
+    for the callable of a multivector must not leak into the next one (coefficients c*u and u+c for small integers c)."""
+    import sympy
+    res = Result()
+    alg = make_algebra(shard['cfg'])
+    name = cfg_name(shard['cfg'])
+    u1, u2 = sympy.Symbol('u1'), sympy.Symbol('u2')
+    vals = {'u1': Fraction(3, 2), 'u2': Fraction(-5, 3)}
+    keys = tuple(alg.canon2bin.values())[1:3]
+    fam = []
+    for c in (-3, -2, -1, 1, 2, 3):
+        fam += [[c * u1, u2 + c], [u1 + c, c * u2], [sympy.Rational(c, 3) * u1, u2 - c * u1]]
+    for order in (fam, list(reversed(fam))):
+        for coeffs in order:
+            res.evals += 1
+            res.nontrivial += 1
+            x = alg.multivector(keys=keys, values=list(coeffs))
+            want = {k: c.subs({u1: sympy.Rational(3, 2), u2: sympy.Rational(-5, 3)}) for k, c in zip(keys, coeffs)}
+            try:
+                got = dict(x(**vals).items())
+                got2 = dict(x(vals['u1'], vals['u2']).items())
+            except Exception as e:
+                res.violate(violation('call-history:raises', f'{name}: calling the symbolic multivector {coeffs} raises {type(e).__name__}: {e}', {'shard': shard}, str(want), repr(e)))
+                continue
+            for g in (got, got2):
+                if any(not close(g.get(k, 0), Fraction(int(want[k].p), int(want[k].q)), 1e-9) for k in keys):
+                    res.violate(violation('call-history:value', f'{name}: after calling other symbolic multivectors of the same key pattern, calling {coeffs} gives {g}', {'shard': shard},
+                                          str(want), str(g)))
+                    break
+    res.sample({'config': name, 'call_history': [str(c) for c in fam[:4]], 'family_size': len(fam)})
+    return res.asdict()
+
+
 def run_shard(shard):
+    if shard.get('kind') == 'callhist':
+        return run_call_history(shard)
     import sympy
     res = Result()
     cfg = shard['cfg']
